@@ -59,16 +59,18 @@ def gen_case(r, idx, malformed=False, big=False):
             items.append(dict(code=gen_code(r).hex()))
         elif callback:
             pos += r.randint(1, 5000)
+            hp = 0 if r.random() < 0.15 else pos        # token.NoPos: a hint that marks code without a Go position
             if r.random() < 0.5:
-                items.append(dict(pos=pos))
+                items.append(dict(pos=hp))
             else:
-                items.append(dict(pos=pos, ident=[r.choice(["a", "x$1", "foo", "$pkg.T"]), r.choice(["main.Foo", "", "p.T.M"])]))
+                items.append(dict(pos=hp, ident=[r.choice(["a", "x$1", "foo", "$pkg.T"]), r.choice(["main.Foo", "", "p.T.M"])]))
         else:
             ln = r.choice([0, 1, 2, 3, 8, 255, 256, 257]) if not big else r.choice([65535, 65534, 4096])
             items.append(dict(raw=bytes(r.choice([8, 8, 0, 10, 65, 255]) for _ in range(ln)).hex()))
     if malformed and not any(("pos" in i or "raw" in i) for i in items):
         items.append(dict(raw="0801") if not callback else dict(pos=pos + 1))
-    return dict(items=items, callback=callback, chunks=[], malformed=malformed, mode=None)
+    return dict(items=items, callback=callback, chunks=[], malformed=malformed, mode=None,
+                mapped=bool(callback and not malformed and r.random() < 0.35))
 
 
 def piece_lengths(res, case):
@@ -151,12 +153,12 @@ def streams(ctx):
     first = json.loads(out)
     for c, res in zip(cases, first):
         c["chunks"], c["mode"] = choose_chunks(r, piece_lengths(res, c), c["malformed"])
-    rc, out, err = C.sh2([h], inp=json.dumps([dict(items=c["items"], chunks=c["chunks"], callback=c["callback"]) for c in cases]).encode(), timeout=600)
+    rc, out, err = C.sh2([h], inp=json.dumps([dict(items=c["items"], chunks=c["chunks"], callback=c["callback"], mapped=c["mapped"]) for c in cases]).encode(), timeout=1800)
     if rc != 0:
         raise C.BuildError("c19 harness failed: " + err[-500:])
     results = json.loads(out)
 
-    dist = dict(chunk_modes={}, hints=0, with_callback=0, malformed=0, rejected_by_impl=0, max_chunks=0, total_bytes=0)
+    dist = dict(chunk_modes={}, hints=0, with_callback=0, default_callbacks=0, malformed=0, rejected_by_impl=0, max_chunks=0, total_bytes=0)
     vcases = []
     for idx, (c, res) in enumerate(zip(cases, results)):
         stream = bytes.fromhex(res["stream"])
@@ -164,6 +166,7 @@ def streams(ctx):
         dist["chunk_modes"][c["mode"]] = dist["chunk_modes"].get(c["mode"], 0) + 1
         dist["hints"] += nh
         dist["with_callback"] += c["callback"]
+        dist["default_callbacks"] += c["mapped"]
         dist["malformed"] += c["malformed"]
         dist["max_chunks"] = max(dist["max_chunks"], len(c["chunks"]))
         dist["total_bytes"] += len(stream)
@@ -181,7 +184,7 @@ def streams(ctx):
         for it in c["items"]:
             if "code" not in it:
                 if "pos" in it:
-                    pos2payload[it["pos"] - 1] = res["payloads"][pi]   # FileSet base 1 -> offset = pos-1
+                    pos2payload[max(it["pos"] - 1, 0)] = res["payloads"][pi]   # FileSet base 1 -> offset = pos-1 (NoPos -> 0)
                 pi += 1
         if not c["malformed"]:
             bad = None
@@ -191,9 +194,33 @@ def streams(ctx):
                 bad = "output is not the code with the hints erased"
             elif b"\x08" in bytes.fromhex(res["out"]):
                 bad = "output contains a hint byte 0x08"
+            elif c["mapped"]:
+                # the DEFAULT callbacks: every hint must yield one segment of the encoded map, with the Go position
+                # of its token.Pos (verif.go, line offset/64+1, column offset%64+1) or no source for token.NoPos
+                sources, names, got = srcmap.decode_obj(json.loads(res["srcmap"]))
+                want, pi2 = [], 0
+                for it in c["items"]:
+                    if "code" in it:
+                        continue
+                    l, cc, _ = exp_maps[pi2]; pi2 += 1
+                    if it["pos"] == 0:
+                        want.append((l, cc, None, None, None, None))
+                    else:
+                        off = it["pos"] - 1
+                        nm = it["ident"][1] if it.get("ident") and it["ident"][1] else None
+                        want.append((l, cc, "verif.go", off // 64 + 1, off % 64 + 1, nm))
+                gotn = [(m["gen_line"], m["gen_col"], sources[m["src"]] if m["src"] is not None else None, m["line"], m["col"],
+                         names[m["name"]] if m["name"] is not None else None) for m in got]
+                key = lambda t: tuple((x is None, x if x is not None else 0) for x in t)
+                if sorted(gotn, key=key) != sorted(want, key=key):
+                    bad = "the encoded source map does not hold exactly one segment per hint with the hint's Go position (or none for NoPos)"
+                    res["maps"] = gotn[:12]; exp_maps = want[:12]
             elif c["callback"]:
-                got_maps = [(m["line"], m["col"], pos2payload.get(m["offset"])) for m in res["maps"]]
-                if got_maps != exp_maps:
+                # (line, col, Go offset, original name) per hint, in stream order
+                hints = [it for it in c["items"] if "code" not in it]
+                want_cb = [(l, cc, max(it["pos"] - 1, 0), (it["ident"][1] if it.get("ident") else "")) for (l, cc, _), it in zip(exp_maps, hints)]
+                got_maps = [(m["line"], m["col"], m["offset"], m["name"]) for m in res["maps"]]
+                if got_maps != want_cb:
                     bad = "a mapping does not point at the position where the following code starts"
             elif res["n"] != c["chunks"]:
                 bad = "Write returned a byte count different from len(p)"
@@ -206,11 +233,13 @@ def streams(ctx):
         if panicked:
             exp = "None"
         else:
-            ms = [(m["line"], m["col"], pos2payload.get(m["offset"], "")) for m in res["maps"]]
+            # the k-th callback belongs to the k-th hint of the stream (checked by the oracle above)
+            pls = res["payloads"] if len(res["payloads"]) == len(res["maps"]) else [""] * len(res["maps"])
+            ms = [(m["line"], m["col"], pl) for m, pl in zip(res["maps"], pls)]
             exp = "Some (%s, [%s])" % (nlist(bytes.fromhex(res["out"])),
                                        ";".join("(%d,%d,%s)" % (l, cc, nlist(bytes.fromhex(p or ""))) for l, cc, p in ms))
         vcases.append("{| c_chunks := [%s]; c_maps_observed := %s; c_expect := %s |}" % (
-            ";".join(nlist(ch) for ch in chunks), "true" if c["callback"] else "false", exp))
+            ";".join(nlist(ch) for ch in chunks), "true" if (c["callback"] and not c["mapped"]) else "false", exp))
         if idx < 3:
             ctx.sample(dict(kind="stream", items=c["items"], chunks=c["chunks"], impl_out=res["out"][:80], impl_maps=res["maps"][:4]))
 
